@@ -32,6 +32,9 @@ def main():
     os.makedirs("/tmp/seedtest", exist_ok=True)
     subprocess.run(["git", "-C", "/repo", "worktree", "add", "-q", "--detach", wt, "HEAD"], check=True)
     try:
+        if meta.get("pin_base"):
+            # the change stopped being a violation on the current tree (see meta["note"]): test it where it was written
+            subprocess.run(["git", "-C", wt, "checkout", "-q", "--detach", meta["base_commit"]], check=True)
         r = subprocess.run(["git", "-C", wt, "apply", os.path.join(d, "patch.diff")])
         if r.returncode != 0:
             # a later fix: commit moved the surrounding lines: let git merge the patch (3-way)
